@@ -134,3 +134,66 @@ func verifC01Step32() { verifC01StepK(32, 4) }
 func verifC01Step16w3() { verifC01StepK(16, 3) }
 func verifC01Step24w2() { verifC01StepK(24, 2) }
 func verifC01Step32w2() { verifC01StepK(32, 2) }
+
+// verifC01Pair: two consecutive gates through the real garbleInto / Eval
+// (shared tweak counter, per-gate table slices, evaluator state carried from
+// one gate to the next).  Gate 1: wires (0,1)->2, gate 2: (x,y)->3 with x,y
+// arbitrary in {0,1,2}; both gate types arbitrary.
+func verifC01Pair() {
+	const nw = 4
+	wires, r := verifWires(nw)
+	key := verifKey(16)
+	ops := [2]Operation{}
+	for k := 0; k < 2; k++ {
+		op := zzverif.U8("op" + string(rune('0'+k)))
+		zzverif.Assume(op <= uint8(INV))
+		ops[k] = Operation(zzverif.Concrete(uint64(op)))
+	}
+	x, y := zzverif.U32("x"), zzverif.U32("y")
+	zzverif.Assume(x < 3 && y < 3)
+	gates := []Gate{
+		{Input0: 0, Input1: 1, Output: 2, Op: ops[0]},
+		{Input0: Wire(zzverif.Concrete(uint64(x))), Input1: Wire(zzverif.Concrete(uint64(y))), Output: 3, Op: ops[1]},
+	}
+	v := make([]bool, nw)
+	evalWires := make([]ot.Label, nw)
+	for i := 0; i < 2; i++ {
+		// input bits and the permute bits of the input wires are case-split
+		// (solver-enumerated): the remaining obligations are ite-free
+		v[i] = zzverif.ConcreteBool(zzverif.Bool("v." + string(rune('0'+i))))
+		_ = zzverif.ConcreteBool(wires[i].L0.S())
+		l := wires[i].L0
+		if v[i] {
+			l.Xor(r)
+		}
+		evalWires[i] = l
+	}
+	alg, err := aes.NewCipher(key)
+	zzverif.Assert(err == nil, "NewCipher accepts the key length")
+	var data ot.LabelData
+	var id uint32
+	garbled := make([][]ot.Label, 2)
+	for k := range gates {
+		var table [4]ot.Label
+		start, count, err := gates[k].garbleInto(wires, alg, r, &id, &data, &table)
+		zzverif.Assert(err == nil, "garbleInto accepts a valid gate")
+		if count > 0 {
+			row := make([]ot.Label, count)
+			copy(row, table[start:start+count])
+			garbled[k] = row
+		}
+	}
+	c := &Circuit{NumGates: 2, NumWires: nw, Gates: gates}
+	err = c.Eval(key, evalWires, garbled)
+	zzverif.Assert(err == nil, "Eval accepts the garbler's tables")
+	v[2] = verifTruth(gates[0].Op, v[0], v[1])
+	v[3] = verifTruth(gates[1].Op, v[gates[1].Input0], v[gates[1].Input1])
+	for w := 2; w < 4; w++ {
+		exp := wires[w].L0
+		if v[w] {
+			exp = wires[w].L1
+		}
+		zzverif.Assert(evalWires[w].Equal(exp), "evaluator label of every gate output = label of the plain value")
+	}
+	zzverif.Reach("end")
+}
